@@ -22,5 +22,8 @@ LinksDef == (1 :> <<>> @@ 2 :> <<1>> @@ 3 :> <<2, 1>> @@ 4 :> <<2, 1>>)
 HeadsA == (1 :> <<3>> @@ 2 :> <<2, 4>> @@ 3 :> <<3, 4>>)
 HeadsB == (1 :> <<2, 3>> @@ 2 :> <<4, 3, 2>> @@ 3 :> <<3, 4>>)
 HeadsC == (1 :> <<3, 6>> @@ 2 :> <<4, 3, 2>> @@ 3 :> <<3, 4>>)
+\* 7 is a head written for another database by an authorised writer: it passes Sync, is fetched, and is refused at the join
+HeadsD == (1 :> <<7, 3>> @@ 2 :> <<4, 7, 2>> @@ 3 :> <<3, 4>>)
+LinksD == (1 :> <<>> @@ 2 :> <<>> @@ 3 :> <<1>> @@ 4 :> <<1, 5>> @@ 5 :> <<>> @@ 7 :> <<>>)
 LinksB == (1 :> <<>> @@ 2 :> <<>> @@ 3 :> <<1>> @@ 4 :> <<1, 5>> @@ 5 :> <<>>)
 =============================================================================
